@@ -36,8 +36,33 @@ fn arg_ext(a: Arg, items: &[Sx]) -> Arg {
                 .collect();
             a = a.value_parser(PossibleValuesParser::new(pvs));
         }
+        if it.head() == "x-hint" {
+            // value hints switch on the path completers of engine/custom.rs (stream `paths`)
+            let h = match it.args()[0].sym() {
+                "AnyPath" => clap::ValueHint::AnyPath,
+                "FilePath" => clap::ValueHint::FilePath,
+                "DirPath" => clap::ValueHint::DirPath,
+                "ExecutablePath" => clap::ValueHint::ExecutablePath,
+                "Other" => clap::ValueHint::Other,
+                _ => clap::ValueHint::Unknown,
+            };
+            a = a.value_hint(h);
+        }
     }
     a
+}
+
+/// A small fixed directory for the path completers: created on demand, contents never depend on the case.
+fn paths_dir() -> std::path::PathBuf {
+    let d = std::env::temp_dir().join("vharness-paths");
+    if !d.join("sub").is_dir() {
+        let _ = std::fs::create_dir_all(d.join("sub").join("deep"));
+        let _ = std::fs::create_dir_all(d.join(".hid"));
+        let _ = std::fs::write(d.join("a.txt"), b"");
+        let _ = std::fs::write(d.join("sub").join("b b.txt"), b"");
+        let _ = std::fs::write(d.join("-dash"), b"");
+    }
+    d
 }
 
 fn build(spec: &Sx, env: &mut EnvGuard) -> Option<Command> {
@@ -57,8 +82,12 @@ fn argv_of(a: &Sx) -> Vec<OsString> {
 type Cands = Vec<(Vec<u8>, bool, Option<String>)>;
 
 fn run_complete(cmd: &Command, argv: &[OsString], index: usize) -> Result<Cands, ()> {
+    run_complete_in(cmd, argv, index, None)
+}
+
+fn run_complete_in(cmd: &Command, argv: &[OsString], index: usize, dir: Option<&std::path::Path>) -> Result<Cands, ()> {
     let mut c = cmd.clone();
-    match clap_complete::engine::complete(&mut c, argv.to_vec(), index, None) {
+    match clap_complete::engine::complete(&mut c, argv.to_vec(), index, dir) {
         Ok(v) => Ok(v
             .iter()
             .map(|c| (c.get_value().as_bytes().to_vec(), c.is_hide_set(), c.get_id().cloned()))
@@ -216,10 +245,31 @@ fn dyn_mode(a: &[Sx], accept: bool) -> String {
 }
 
 /// Returns `Some(result)` when `head` is a mode of this area.
+/// `(dynpath (cmd ..) (argv ..) index)`: the engine with a current directory, so that value hints reach the path
+/// completers; only "returned / no-completion error / panicked" and the number of candidates are reported.
+fn dynpath_mode(a: &[Sx]) -> String {
+    if a.len() < 3 || a[0].head() != "cmd" || a[0].args().is_empty() || a[1].head() != "argv" || !matches!(a[2], Sx::Num(_)) {
+        return "badcase".into();
+    }
+    let mut env = EnvGuard(vec![]);
+    let cmd = match build(&a[0], &mut env) {
+        Some(c) => c,
+        None => return "INVALID".into(),
+    };
+    let argv = argv_of(&a[1]);
+    let index = a[2].num() as usize;
+    let dir = paths_dir();
+    match run_complete_in(&cmd, &argv, index, Some(dir.as_path())) {
+        Ok(v) => format!("ok {}", v.len()),
+        Err(()) => "err".into(),
+    }
+}
+
 pub fn dispatch(head: &str, args: &[Sx]) -> Option<String> {
     match head {
         "dyn" => Some(dyn_mode(args, false)),
         "dynaccept" => Some(dyn_mode(args, true)),
+        "dynpath" => Some(dynpath_mode(args)),
         _ => None,
     }
 }
